@@ -163,6 +163,11 @@ def run_case(case):
                 # (with the LAST observable of the request, so that lazily initialised process-wide state is first touched by another
                 # observable than in the first process)
                 yad.Runner(th, cards.observables(request(names[-1:], pts[:2]), xgrid=cards.warp_grid(g["xgrid"]), deg=g["deg"], is_log=g["is_log"], **case["obs"])).get_result()
+                # ... the very same nodes in the other interpolation mode and with another polynomial degree (process-wide state keyed by the
+                # nodes alone)
+                yad.Runner(th, cards.observables(request(names[:1], pts[:1]), xgrid=g["xgrid"], deg=g["deg"], is_log=not g["is_log"], **case["obs"])).get_result()
+                if len(g["xgrid"]) > g["deg"] + 2:
+                    yad.Runner(th, cards.observables(request(names[:1], pts[:1]), xgrid=g["xgrid"], deg=g["deg"] + 1 if g["deg"] < 4 else g["deg"] - 1, is_log=g["is_log"], **case["obs"])).get_result()
                 if th["FNS"] != "ZM-VFNS":
                     # ... and the same request under another NfFF first (process-wide state keyed without the flavour number)
                     th_other = dict(th, NfFF=th["NfFF"] + 1 if th["NfFF"] < 5 else th["NfFF"] - 1)
